@@ -58,6 +58,11 @@ struct we_machines
             msm::front::Row<Sub, we_mid, A, we_act, we_grd>,
             msm::front::Row<C, we_exact, A, msm::front::none, msm::front::none>
         > {};
+        // the machine's own internal table: base-class and Kleene triggers compete there exactly as in the transition table
+        struct internal_transition_table : mpl::vector<
+            msm::front::Internal<we_base2, we_act, we_grd>,
+            msm::front::Internal<boost::any, we_act, we_grd>
+        > {};
         template <class FSM, class Event> void no_transition(Event const&, FSM&, int) {}
     };
     typedef Back<Top_> Top;
@@ -93,6 +98,9 @@ struct we_nk
             msm::front::Row<A, we_base1, B, we_act, msm::front::none>,
             msm::front::Row<B, we_base2, C, we_act, msm::front::none>,
             msm::front::Row<C, we_exact, A, msm::front::none, msm::front::none>
+        > {};
+        struct internal_transition_table : mpl::vector<
+            msm::front::Internal<we_base2, we_act, we_grd>
         > {};
         template <class FSM, class Event> void no_transition(Event const&, FSM&, int) {}
     };
